@@ -476,7 +476,7 @@ func evalCase(c *hcase, rep reporter) bool {
 			// one flipped bit of the encapsulated key; what the receiver must derive from it (an error, or the
 			// key schedule of another shared secret) is decided by the reference, not by a rule of thumb
 			nEnc = append([]byte{}, enc...)
-			b := c.EncBit % (8 * len(nEnc))
+			b := ((c.EncBit % (8 * len(nEnc))) + 8*len(nEnc)) % (8 * len(nEnc))
 			nEnc[b/8] ^= 1 << (b % 8)
 		case "mode":
 			var cand []int
@@ -750,7 +750,7 @@ func TestC07Grid(t *testing.T) {
 	for _, id := range rhpke.KEMIDs() {
 		id := id
 		t.Run(kemName(id), func(t *testing.T) {
-			n := vlib.N(500, 3000) / kemCost[id]
+			n := vlib.N(400, 3000) / kemCost[id]
 			vlib.Check(t, n, func(t *rapid.T) {
 				c := drawCase(t, id)
 				evalCase(c, func(key, detail string) bool { return vlib.Report(t, key, detail) })
